@@ -58,6 +58,9 @@ def case_fn(case: dict, d):
     base_job = {"spec": str(spec), "package": case["package"], "core": case.get("core"), "strategy": "operationId"}
     for name, (root, seed, w) in {"h0": ("r0/proj", "0", False), "h1": ("r1/proj", "1", False), "h2": ("r2/proj", "2", False), "h3": ("r3/proj", "3", False),
                                    "hr": ("r4/proj", "random", False), "warm": ("r5/proj", "0", True), "other-root": ("deeper/x/y/proj", "0", False),
+                                   # a project root whose ANCESTORS are named like the generator's own sub-packages: nothing may be decided by a directory
+                                   # name above the output package
+                                   "named-root": ("models/endpoints/core/mocks/proj", "0", False),
                                    "warm-same-path": ("r6/proj", "0", "same")}.items():
         job = {**base_job, "root": str(d / root)}
         if w is True:
@@ -113,7 +116,7 @@ def check(run: Run, ctx) -> None:
         g.run_oracle(run, ctx, known, "vf.corr.plan", "C09/C10 on the real generator (rerun, perturb, delete, fault)", CLASSES, quick=0.5, thorough=4.0)
     except ModuleNotFoundError:
         run.notes.append("vf.corr.plan not present yet")
-    run.cov["rule"] = (run.cov.get("rule") or "") + ("[determinism e2e] each seeded document is generated in 7 fresh interpreters: PYTHONHASHSEED 0,1,2,3,random, a warm process "
+    run.cov["rule"] = (run.cov.get("rule") or "") + ("[determinism e2e] each seeded document is generated in 9 fresh interpreters: PYTHONHASHSEED 0,1,2,3,random, a warm process "
                        "(an unrelated document generated first) and a different, deeper project root; sha256 of every emitted file must agree. Distinct by document; non-trivial when >= 2 operations")
     cases = []
     for i in range(ctx.budget(8, 60)):
@@ -144,6 +147,13 @@ def check(run: Run, ctx) -> None:
                 "tags": {"type": "array", "items": {"type": "object", "properties": {"k": {"type": "string"}, "v": {"type": "integer"}}}},
                 "lid": {"type": "object", "properties": {"hinged": {"type": "boolean"}}},
                 "label": {"type": "string"}}}
+        if i % 2 == 0:
+            # an operation tagged with the name of the schema it returns: the endpoint module and the model module share a file name
+            sch_names = [n for n, sc in doc["components"]["schemas"].items() if isinstance(sc, dict) and sc.get("type") == "object" and n.isalnum()]
+            if sch_names:
+                n0 = r.choice(sch_names)
+                doc["paths"][f"/by-name/{n0.lower()}"] = {"get": {"operationId": f"fetch{n0}ByName", "tags": [n0.lower()], "responses": {"200": {"description": "ok", "content": {
+                    "application/json": {"schema": {"$ref": f"#/components/schemas/{n0}"}}}}}}}
         # error statuses that the generator's own status table does not know, described in the document's words
         for item in doc["paths"].values():
             for m, op in item.items():
